@@ -22,7 +22,7 @@ func (f *FnEnc) setVal(fr *Frame, v ssa.Value, x Val) {
 		}
 		x.L = nl
 	}
-	fr.vals[v] = x
+	fr.vals[v] = x // (Via is kept)
 }
 
 func (f *FnEnc) instr(fr *Frame, st *State, R string, in ssa.Instruction) {
@@ -38,6 +38,8 @@ func (f *FnEnc) instr(fr *Frame, st *State, R string, in ssa.Instruction) {
 		var elem types.Type
 		if at, ok := t.Underlying().(*types.Array); ok {
 			elem = at.Elem()
+		} else {
+			f.allocType = t
 		}
 		ref := f.allocObj(st, elem, R)
 		f.zeroObject(st, ref, f.l.classesOf(t))
@@ -74,7 +76,11 @@ func (f *FnEnc) instr(fr *Frame, st *State, R string, in ssa.Instruction) {
 		}
 		f.nilCheck(R, base, in.Pos())
 		a := ptrAddr(base).plusSub(fi.Off)
-		f.setVal(fr, in, Val{T: in.Type(), L: []string{a.Ref, a.Idx, a.Sub}})
+		via := a.Via
+		if _, named := st_.(*types.Named); named {
+			via = append(append([]viaTag(nil), via...), viaTag{st_, fi.Off})
+		}
+		f.setVal(fr, in, Val{T: in.Type(), L: []string{a.Ref, a.Idx, a.Sub}, Via: via})
 	case *ssa.Field:
 		base := f.val(fr, in.X)
 		fi := f.l.structFields(base.T)[in.Field]
@@ -501,6 +507,17 @@ func (f *FnEnc) overflow(R, op, a, b string, w int, signed bool, pos token.Pos) 
 		narrow = "(bvmul " + a + " " + b + ")"
 	}
 	ok = eq(wide, ext(narrow))
+	if op == "mul" && !signed {
+		name := fmt.Sprintf("umul_noovfl!%d", w)
+		if !f.c.ufs[name] {
+			f.c.ufs[name] = true
+			bs := bvSort(w)
+			f.c.raw("SOLVERDEF\t" +
+				fmt.Sprintf("(define-fun %s ((a!p %s) (b!p %s)) Bool (bvumul_noovfl a!p b!p))", name, bs, bs) + "\t" +
+				fmt.Sprintf("(define-fun %s ((a!p %s) (b!p %s)) Bool (= ((_ extract %d %d) (bvmul ((_ zero_extend %d) a!p) ((_ zero_extend %d) b!p))) (_ bv0 %d)))", name, bs, bs, 2*w-1, w, w, w, w))
+		}
+		ok = "(" + name + " " + a + " " + b + ")"
+	}
 	n := f.nextOrd("overflow:" + op)
 	f.c.oblige(Item{Guard: R, Formula: ok, Name: f.obName("nooverflow", fmt.Sprintf("%s#%d", op, n)), Class: "safe", Pos: f.pos(pos), Text: "no overflow in " + op})
 }
@@ -558,7 +575,7 @@ func (f *FnEnc) indexAddr(fr *Frame, st *State, R string, in *ssa.IndexAddr) {
 	switch u := x.T.Underlying().(type) {
 	case *types.Slice:
 		f.safety("index", R, "(bvult "+idx+" "+x.L[3]+")", in.Pos())
-		a := f.elemAddr(Addr{x.L[0], x.L[1], x.L[2]}, u.Elem(), idx)
+		a := f.elemAddr(Addr{Ref: x.L[0], Idx: x.L[1], Sub: x.L[2]}, u.Elem(), idx)
 		f.setVal(fr, in, Val{T: in.Type(), L: []string{a.Ref, a.Idx, a.Sub}})
 	case *types.Pointer:
 		arr := u.Elem().Underlying().(*types.Array)
@@ -571,11 +588,11 @@ func (f *FnEnc) indexAddr(fr *Frame, st *State, R string, in *ssa.IndexAddr) {
 		ec := f.l.cells(arr.Elem())
 		switch {
 		case ec == 1:
-			a = Addr{x.L[0], x.L[1], bvadd(x.L[2], idx)}
+			a = Addr{Ref: x.L[0], Idx: x.L[1], Sub: bvadd(x.L[2], idx)}
 		case f.l.idxArray(u.Elem()):
-			a = Addr{x.L[0], bvadd(x.L[1], idx), x.L[2]}
+			a = Addr{Ref: x.L[0], Idx: bvadd(x.L[1], idx), Sub: x.L[2]}
 		default: // single multi-cell element
-			a = Addr{x.L[0], x.L[1], x.L[2]}
+			a = Addr{Ref: x.L[0], Idx: x.L[1], Sub: x.L[2]}
 		}
 		f.setVal(fr, in, Val{T: in.Type(), L: []string{a.Ref, a.Idx, a.Sub}})
 	default:
@@ -586,18 +603,18 @@ func (f *FnEnc) indexAddr(fr *Frame, st *State, R string, in *ssa.IndexAddr) {
 // elemAddr is the address of element i of a slice based at a.
 func (e *Enc) elemAddr(a Addr, elem types.Type, i string) Addr {
 	if e.l.oneCell(elem) {
-		return Addr{a.Ref, a.Idx, e.ixadd(a.Sub, i)}
+		return Addr{Ref: a.Ref, Idx: a.Idx, Sub: e.ixadd(a.Sub, i)}
 	}
-	return Addr{a.Ref, e.ixadd(a.Idx, i), a.Sub}
+	return Addr{Ref: a.Ref, Idx: e.ixadd(a.Idx, i), Sub: a.Sub}
 }
 
 // sliceBase is the address of the first element of s[lo:...] (plain sum:
 // reslicing is not a trigger position).
 func (e *Enc) sliceBase(a Addr, elem types.Type, lo string) Addr {
 	if e.l.oneCell(elem) {
-		return Addr{a.Ref, a.Idx, bvadd(a.Sub, lo)}
+		return Addr{Ref: a.Ref, Idx: a.Idx, Sub: bvadd(a.Sub, lo)}
 	}
-	return Addr{a.Ref, bvadd(a.Idx, lo), a.Sub}
+	return Addr{Ref: a.Ref, Idx: bvadd(a.Idx, lo), Sub: a.Sub}
 }
 
 // ixadd is base+i for element addresses.  With the contract flag `ematch`
@@ -648,7 +665,7 @@ func (f *FnEnc) sliceOp(fr *Frame, st *State, R string, in *ssa.Slice) {
 		} else {
 			f.safety("slice", R, and("(bvule "+lo+" "+hi+")", "(bvule "+hi+" "+max+")", "(bvule "+max+" "+capv+")"), in.Pos())
 		}
-		a := f.sliceBase(Addr{x.L[0], x.L[1], x.L[2]}, u.Elem(), lo)
+		a := f.sliceBase(Addr{Ref: x.L[0], Idx: x.L[1], Sub: x.L[2]}, u.Elem(), lo)
 		f.setVal(fr, in, Val{T: in.Type(), L: []string{a.Ref, a.Idx, a.Sub, "(bvsub " + hi + " " + lo + ")", "(bvsub " + max + " " + lo + ")"}})
 	case *types.Pointer:
 		arr := u.Elem().Underlying().(*types.Array)
@@ -664,7 +681,7 @@ func (f *FnEnc) sliceOp(fr *Frame, st *State, R string, in *ssa.Slice) {
 		if x.Loc != nil {
 			unsupp("slicing a local array")
 		}
-		a := f.sliceBase(Addr{x.L[0], x.L[1], x.L[2]}, arr.Elem(), lo)
+		a := f.sliceBase(Addr{Ref: x.L[0], Idx: x.L[1], Sub: x.L[2]}, arr.Elem(), lo)
 		f.setVal(fr, in, Val{T: in.Type(), L: []string{a.Ref, a.Idx, a.Sub, "(bvsub " + hi + " " + lo + ")", "(bvsub " + max + " " + lo + ")"}})
 	default:
 		unsupp("Slice on %s", x.T)
@@ -716,9 +733,10 @@ func (f *FnEnc) convert(fr *Frame, st *State, R string, in *ssa.Convert) {
 		if intWidth(sl.Elem()) == 8 {
 			n := "(slen " + x.L[0] + ")"
 			h := f.heap(st, SBV8)
+			f.noteWrite(writeRec{Class: SBV8, Kind: "object", Ref: ref})
 			inner := f.c.lambda(SBV8, "(sbyte "+x.L[0]+" k!l)")
 			z := fmt.Sprintf("((as const %s) %s)", midSort(SBV8), inner)
-			st.heaps[SBV8] = f.c.define("HBV8", heapSort(SBV8), sto(h, ref, z))
+			setHeap(st, SBV8, f.c.define("HBV8", heapSort(SBV8), sto(h, ref, z)))
 			f.setVal(fr, in, Val{T: to, L: []string{ref, bv64(0), bv64(0), n, n}})
 		} else {
 			n := f.c.fresh("nrunes", SBV64)
@@ -734,9 +752,10 @@ func (f *FnEnc) convert(fr *Frame, st *State, R string, in *ssa.Convert) {
 // havocObject makes the contents of object ref arbitrary.
 func (f *FnEnc) havocObject(st *State, ref string, classes []string) {
 	for _, so := range classes {
+		f.noteWrite(writeRec{Class: so, Kind: "object", Ref: ref})
 		h := f.heap(st, so)
 		fr := f.c.fresh("hv", midSort(so))
-		st.heaps[so] = f.c.define("H"+className(so), heapSort(so), sto(h, ref, fr))
+		setHeap(st, so, f.c.define("H"+className(so), heapSort(so), sto(h, ref, fr)))
 	}
 }
 
@@ -772,7 +791,7 @@ func (f *FnEnc) makeIface(st *State, x Val, it types.Type) Val {
 	// box the value in a fresh immutable object
 	ref := f.allocObj(st, nil, f.curGuard)
 	if len(x.L) > 0 {
-		f.store(st, Addr{ref, bv64(0), bv64(0)}, x)
+		f.store(st, Addr{Ref: ref, Idx: bv64(0), Sub: bv64(0)}, x)
 	}
 	return Val{T: it, L: []string{tag, ref, bv64(0), bv64(0)}}
 }
@@ -795,7 +814,7 @@ func (f *FnEnc) typeAssert(fr *Frame, st *State, R string, in *ssa.TypeAssert) {
 		case refLike(at):
 			v = Val{T: at, L: []string{x.L[1]}}
 		default:
-			v = f.load(st, at, Addr{x.L[1], x.L[2], x.L[3]})
+			v = f.load(st, at, Addr{Ref: x.L[1], Idx: x.L[2], Sub: x.L[3]})
 			f.c.assume(R, implies(ok, f.wf(st, v)))
 		}
 	}
